@@ -121,6 +121,7 @@ def model_term(e, A):
     if cls == "DFT":
         shp = c["shape"]
         axes = c["axes"] if c["axes"] is not None else tuple(range(len(shp)))
+        axes = tuple(a % len(shp) for a in axes)        # negative indices count from the end (the model takes positions)
         axshape = c["axes_shape"] if c["axes_shape"] is not None else tuple(shp[a] for a in axes)
         lens = {a: m for a, m in zip(axes, axshape)}
         if any(4 % m for m in lens.values()):
